@@ -317,14 +317,28 @@ func genC08Index(g *gen) {
 				modKeys = append(modKeys, "other:no lookup in "+recv+".modtimes")
 				cond = "other:no lookup in " + recv + ".modtimes"
 			} else {
-				ast.Inspect(outer, func(n ast.Node) bool {
-					if c, ok := n.(*ast.CallExpr); ok && len(c.Args) >= 1 {
-						if f := exprText(c.Fun); f == recv+".store" || f == recv+".load" {
-							resKeys[norm(c.Args[0])] = true
+				// from the lookup onwards (when the local branch is not an else block of its own but the rest of the
+				// function after a remote branch that always returns, the statements before the lookup are not part of it)
+				from := 0
+				for i, st := range outer.List {
+					if as, ok := st.(*ast.AssignStmt); ok {
+						for _, r := range as.Rhs {
+							if ix, ok := r.(*ast.IndexExpr); ok && exprText(ix.X) == recv+".modtimes" && from == 0 {
+								from = i
+							}
 						}
 					}
-					return true
-				})
+				}
+				for _, st := range outer.List[from:] {
+					ast.Inspect(st, func(n ast.Node) bool {
+						if c, ok := n.(*ast.CallExpr); ok && len(c.Args) >= 1 {
+							if f := exprText(c.Fun); f == recv+".store" || f == recv+".load" {
+								resKeys[norm(c.Args[0])] = true
+							}
+						}
+						return true
+					})
+				}
 				ast.Inspect(outer, func(n ast.Node) bool {
 					if ix, ok := n.(*ast.IndexExpr); ok && exprText(ix.X) == recv+".modtimes" {
 						k := norm(ix.Index)
